@@ -27,7 +27,7 @@ EXPLANATION = ('theorems C16_* (coq/props/C16.v) hold for all lists over any typ
                '_ulist.py / _dictattr.py / _dict.py on the exhaustive small scopes above')
 TRUSTED = ['modelled, not verified: CPython dict (insertion-ordered map with in-place assignment), set iteration order (any permutation; proved irrelevant), '
            'copy.copy of a dict subclass (fresh object with the same items), inspect-based getargs (names of positional parameters)']
-ASSUMPTIONS = ['elements are hashable; == is lawful except for NaN objects, which are covered through identity (a NaN object is a member of what holds it)', 'mapping keys are str without dots, values are leaves (not dicts); nested merge is C15',
+ASSUMPTIONS = ['elements are hashable; == is lawful except for NaN objects, which are covered through identity (a NaN object is a member of what holds it)', 'mapping keys are str; a key containing a dot is generated only as a present top-level key or with no key equal to a prefix of it (the dotted-path convention reaches into branches: C15); values are leaves (not dicts) except in tree_add',
                'callables passed to Dict.__call__ are plain functions with positional / defaulted / keyword-only parameters (no *args / **kwargs, no builtins or partials) and do not raise',
                "inherent name collisions of a dict subclass are outside the property: attribute access d.k for a key named like an attribute of dict / dictattr / Dict "
                "(keys, items, copy, ...) finds the method, and the KEYWORD spelling d.relabel(keys=...) / d.relabel(self=...) cannot name those two keys (the dict / affix / "
@@ -338,9 +338,13 @@ def impl_dict(case):
     if claim and exp and exp[0] == 'map': res['exp'] = [[k, v[0]] for k, v in exp[1]]      # the expected items (used by the known-finding predicate)
     return res
 
-def make_fn(k, deps, dflt=None, ko=0):
-    """the free callable [k, arg1, ...]; dflt = defaults by parameter name; the last ko parameters are keyword-only"""
-    dflt = dflt or {}; ko = min(ko, len(deps))
+def make_fn(k, deps, dflt=None, ko=0, partial=False):
+    """the free callable [k, arg1, ...]; dflt = defaults by parameter name; the last ko parameters are keyword-only;
+    partial: the defaults are keywords pre-bound by functools.partial on a function whose parameters are all required"""
+    dflt = {x: y for x, y in (dflt or {}).items() if x in deps}; ko = min(ko, len(deps))          # (a shrunk case may have lost the parameter)
+    if partial and dflt:
+        import functools
+        return functools.partial(eval('lambda %s: [%r%s]' % (', '.join(deps), k, ''.join(', ' + d for d in deps))), **dflt)
     text = [d + ('=%d' % dflt[d] if d in dflt else '') for d in deps]
     if ko: text.insert(len(deps) - ko, '*')
     return eval('lambda %s: [%r%s]' % (', '.join(text), k, ''.join(', ' + d for d in deps)))
@@ -384,7 +388,7 @@ def impl_call(case):
     for k, v in case['base']: dict.__setitem__(d, k, v)
     before = list(dict.items(d))
     for order in orders:
-        kwargs = {k: (v['c'] if 'c' in v else make_fn(k, v['f'], v.get('d'), v.get('ko', 0))) for k, v in order}
+        kwargs = {k: (v['c'] if 'c' in v else make_fn(k, v['f'], v.get('d'), v.get('ko', 0), v.get('partial', False))) for k, v in order}
         try:
             r = d(**kwargs)
             results.append([type(r).__name__, [[k, cv(v)] for k, v in dict.items(r)]])
@@ -603,7 +607,7 @@ def gen_dict(rng, tier):
     return out
 
 # key names that are attribute / method names, private-looking, Python keywords, not identifiers, or names used inside the implementation
-ODD_KEYS = ['_x', '__x', 'class', 'a b', '1', '', 'key', 'self', 'function', 'keys', 'items', 'copy', 'get', 'update', 'relabel', 'value', 'other', 'lambda']
+ODD_KEYS = ['p.q', 'p.q.r', 'u.v', '_x', '__x', 'class', 'a b', '1', '', 'key', 'self', 'function', 'keys', 'items', 'copy', 'get', 'update', 'relabel', 'value', 'other', 'lambda']
 DICT_ATTRS = set(dir(dict)) | {'keys', 'values', 'copy', 'relabel', 'rename'}
 def gen_odd_names(rng, tier):
     out = []
@@ -754,6 +758,7 @@ def gen_defaults(rng, tier):
                 order = head + tail
             else: order = req + opt
             v['f'] = order; v['d'] = {x: 100 + i for i, x in enumerate(opt)}; v['ko'] = ko
+            if opt and rng.random() < 0.35: v['partial'] = True          # the same defaults as keywords pre-bound by functools.partial
         return case
     for n in range(1, 4):                                   # every loop-free graph on <= 3 derived keys, every order, two default patterns each
         for es in digraph_classes(n):
@@ -763,6 +768,8 @@ def gen_defaults(rng, tier):
         out.append(with_defaults(graph_case(rng, n, rand_dag(rng, n) if rng.random() < 0.6 else rand_graph(rng, n), cls=rng.choice(['Dict', 'UD']))))
     # the seeded example: c = lambda a, b = 100 must wait for the derived b
     out.append({'kind': 'call', 'cls': 'Dict', 'base': [['a', 1]], 'kw': [['c', {'f': ['a', 'b'], 'd': {'b': 100}}], ['b', {'f': ['a']}]], 'perms': 'all'})
+    out.append({'kind': 'call', 'cls': 'Dict', 'base': [['a', 2]], 'kw': [['rate', {'f': ['a']}], ['c', {'f': ['a', 'rate'], 'd': {'rate': 10}, 'partial': True}]], 'perms': 'all'})
+    out.append({'kind': 'call', 'cls': 'UD', 'base': [['a', 2], ['rate', 3]], 'kw': [['c', {'f': ['rate', 'a'], 'd': {'rate': 10}, 'partial': True}], ['e', {'f': ['c', 'q'], 'd': {'q': 4, 'c': 0}, 'partial': True}]], 'perms': 'all'})
     out.append({'kind': 'call', 'cls': 'Dict', 'base': [['a', 1]], 'kw': [['c', {'f': ['b'], 'd': {'b': 100}}], ['b', {'f': ['c'], 'd': {'c': 5}}]], 'perms': 'all'})
     out.append({'kind': 'call', 'cls': 'Dict', 'base': [['a', 1]], 'kw': [['c', {'f': ['a', 'b'], 'd': {'b': 100}, 'ko': 1}], ['e', {'f': ['c', 'zz'], 'd': {'zz': 7, 'c': 0}, 'ko': 2}]], 'perms': 'all'})
     return out
